@@ -174,6 +174,40 @@ template <> struct El<utl::vector<int>> { using T = utl::vector<int>; using M = 
     static void mut(T& a) { a.push_back(99); } static void mmut(M& a) { a.push_back(99); }
     static std::string str(const T& a) { std::string s = "["; for (size_t i = 0; i < a.size() && i < 12; i++) s += (i ? "," : "") + S(a[i]); return s + "] (size " + S((long)a.size()) + ")"; } };
 
+// ================= tuples with a NON-TRIVIAL member: tuple<vector<int>, int> ===========================================
+enum { T_CTOR_DEF, T_CTOR_VALS, T_CTOR_COPY, T_ASSIGN, T_ASSIGN_SELF, T_PUSH, T_WRITE };
+template <class Impl> struct TupleNTSubject : Subject {
+    using EV = El<utl::vector<int>>; using MM = std::tuple<std::vector<int>, int>;
+    const char* nm; std::vector<Op> ops; Slots<Impl, MM> w;
+    TupleNTSubject(const char* n) : nm(n) { for (int s = 0; s < 2; s++) { ops.push_back({T_CTOR_DEF, s, 0}); ops.push_back({T_CTOR_VALS, s, 0}); ops.push_back({T_CTOR_VALS, s, 1}); ops.push_back({T_CTOR_COPY, s, 0}); ops.push_back({T_ASSIGN, s, 0}); ops.push_back({T_ASSIGN_SELF, s, 0}); ops.push_back({T_PUSH, s, 0}); ops.push_back({T_WRITE, s, 0}); } }
+    const char* name() const override { return nm; }
+    int nops() const override { return (int)ops.size(); }
+    int depth(bool t) const override { return t ? 7 : 5; }
+    bool mutating(int o) const override { return ops[(size_t)o].kind >= T_CTOR_COPY; }
+    std::string op_name(int o) const override { const Op& p = ops[(size_t)o]; std::string x = p.slot ? "b" : "a", y = p.slot ? "a" : "b";
+        switch (p.kind) { case T_CTOR_DEF: return x + "=T()"; case T_CTOR_VALS: return x + "=T(v" + S(p.a) + "," + S(5 + p.a) + ")"; case T_CTOR_COPY: return x + "=T(" + y + ")"; case T_ASSIGN: return x + "=" + y; case T_ASSIGN_SELF: return x + "=" + x; case T_PUSH: return "get<0>(" + x + ").push_back(99)"; default: return "get<1>(" + x + ")=9"; } }
+    void reset() override { w.reset(); }
+    bool enabled(int o) override { const Op& p = ops[(size_t)o]; int s = p.slot, t = 1 - s; switch (p.kind) { case T_CTOR_DEF: case T_CTOR_VALS: return !w.alive[s]; case T_CTOR_COPY: return !w.alive[s] && w.alive[t]; case T_ASSIGN: return w.alive[s] && w.alive[t]; default: return w.alive[s]; } }
+    std::string apply(int o) override {
+        const Op& p = ops[(size_t)o]; int s = p.slot, t = 1 - s; Impl* x = w.obj(s); auto& m = w.model[s];
+        switch (p.kind) {
+        case T_CTOR_DEF: new (x) Impl(); m = MM(); w.alive[s] = true; break;
+        case T_CTOR_VALS: { auto v = EV::make(p.a); new (x) Impl(v, 5 + p.a); m = MM(EV::mmake(p.a), 5 + p.a); w.alive[s] = true; } break;
+        case T_CTOR_COPY: new (x) Impl(*w.obj(t)); m = w.model[t]; w.alive[s] = true; break;
+        case T_ASSIGN: *x = *w.obj(t); m = w.model[t]; break;
+        case T_ASSIGN_SELF: { Impl& r = *x; *x = r; } break;
+        case T_PUSH: utl::get<0>(*x).push_back(99); std::get<0>(m).push_back(99); break;
+        default: utl::get<1>(*x) = 9; std::get<1>(m) = 9; break;
+        }
+        for (int q = 0; q < 2; q++) if (w.alive[q]) { const Impl& y = *w.obj(q); const auto& mm = w.model[q]; std::string who = q ? "b" : "a";
+            if (!EV::eq(utl::get<0>(y), std::get<0>(mm))) return who + ": get<0> holds " + EV::str(utl::get<0>(y)) + ", which differs from the std::tuple model";
+            if (utl::get<1>(y) != std::get<1>(mm)) return who + ": get<1> = " + S(utl::get<1>(y)) + ", std::tuple model has " + S(std::get<1>(mm)); }
+        return "";
+    }
+    void canon(Canon& c) override { w.canon(c); }
+    std::string teardown() override { return w.teardown(); }
+};
+
 // ================= maybe<T> =========================================================================================
 enum { M_CTOR_EMPTY, M_CTOR_NOTHING, M_CTOR_VAL, M_CTOR_COPY, M_ASSIGN_VAL, M_ASSIGN_NOTHING, M_ASSIGN, M_ASSIGN_SELF, M_MUTATE };
 template <class T> struct MaybeSubject : Subject {
@@ -271,6 +305,8 @@ REG(small_vector_int3, SeqSubject<small3, int, -1, 5, true>("small_vector_int3",
 REG(array_int3, FixedSubject<utl::array<int, 3>, ArrAcc>("array_int3"));
 REG(tuple_idi, FixedSubject<utl::tuple<int, double, int>, TupAcc<utl::tuple<int, double, int>>>("tuple_idi"));
 REG(tuplev2_idi, FixedSubject<utl::tuplev2<int, double, int>, TupAcc<utl::tuplev2<int, double, int>>>("tuplev2_idi"));
+REG(tuple_vec_int, TupleNTSubject<utl::tuple<utl::vector<int>, int>>("tuple_vec_int"));
+REG(tuplev2_vec_int, TupleNTSubject<utl::tuplev2<utl::vector<int>, int>>("tuplev2_vec_int"));
 REG(maybe_int, MaybeSubject<int>("maybe_int"));
 REG(maybe_vector, MaybeSubject<utl::vector<int>>("maybe_vector"));
 REG(maybe_tracked, MaybeSubject<Tracked>("maybe_tracked"));
